@@ -42,7 +42,7 @@ CLAIMED = {
     "C18": dict(
         category="fault_enumeration",
         text="Seeded histories over Add/Remove/ClearInterceptor, SetHTTPClient and requests of every verb (and via SimpleAPI) with 0..6 interceptor objects and 1..3 clients; at every request point every position of a failing interceptor is enumerated; list-model oracle: chain = model list in order, each once, then transport once; header changes reach the transport and nothing but what the registered interceptors wrote into this request does (per-interceptor value counts; APIs with and without a default header); error aborts and surfaces; no re-entrancy.",
-        note="Histories are sampled, failing positions are enumerated exhaustively per request point; sharing one http.Client between two SimpleHTTP objects is not exercised; trusted: harness/c18_interceptors.go.",
+        note="Histories are sampled, failing positions are enumerated exhaustively per request point; trusted: harness/c18_interceptors.go.",
         ref="DESIGN.md §5.18"),
     "C20": dict(
         text="CurryDef clause (the only one with a schedule in it): seeded schedule search over 1..6 threads calling Call with unique argument blocks and MarkDone from inside fn or from another thread; prefix-chain oracle over the recorded invocations (whole blocks, real-time order, at most/exactly one invocation per Call, nothing after MarkDone, Result). The pure clauses (Compose/Pipe incl. regrouping and caller-owned slices, CurryParamN/MakeVariadic* adapters, Trampoline, MatchFor/Either first-match over pattern permutations x probe values, NewCompData) ride on the same scenario tape as seeded input generation against small reference implementations (harness/c20_pure.go), with composed functions also evaluated from two simulated threads.",
@@ -64,6 +64,22 @@ CLAIMED = {
         text="Seeded schedule search over one closer x 1..8 users per object kind with statement-level preemption and site-targeted strategies; oracles: no goroutine/call panic, nothing left blocked at fair quiescence, post-close results. Evidence of absence bounded by the explored schedules (counts in the evidence file).",
         note="Statement-granular sequentially consistent interleavings; runtime wake-up order of several blocked receivers and select among simultaneously ready cases are deterministic but not explored; trusted: Go runtime/synctest fake clock, the instrumenter's rewrites (validated by the transparency self-test), the oracles in harness/c15_shutdown.go.",
         ref="DESIGN.md §5.15"),
+}
+
+# widenings of the last waves (appended to the level text of the property)
+EXTRA = {
+    "C07": " Also: node-hook sizes MaxInt/negative, the buffer maximum lowered on the live queue (own scenario), and Offer/Poll/Count must take zero virtual time in stall-free runs (they may not wait behind a lock holder that sleeps).",
+    "C08": " The wrapped structure may also be bounded (rejections are part of the sequential model), hold pointer elements one of which is nil, panic in its k-th call (the caller recovers, the wrapper must stay usable), or be cleared by its owner between phases.",
+    "C09": " Also: batch size MaxInt, timeouts <= 0, nil jobs in front of real ones; a timed call must return within timeout + retry interval in stall-free runs.",
+    "C10": " Also: callbacks bound through the returned handle, an unsubscribed Subscription value subscribed again, a Map function that panics once (publishers used again afterwards).",
+    "C11": " Also probes for aliasing/re-entrancy (FlatMap returning its source, Subscribe from inside OnNext, handlers closed by the step running on them) and for panicking user callbacks.",
+    "C12": " Also: mailbox closed from inside (by a posted function / by the effect), the default Handler asked for again after Close.",
+    "C14": " Also: never-started coroutine objects as caller handles, a generator written as a do-block, an IO whose effect panics (recovered) followed by another YieldFromIO.",
+    "C15": " Also: pool closed by one of its jobs or by its panic handler.",
+    "C16": " Also: pool sizes MaxInt/MinInt, duplicate elements, interface-typed results with nils, f calling PMap itself (rarely with a 1100-element list), f ending its goroutine (runtime.Goexit).",
+    "C17": " Also: typed and odd path-parameter values and keys, query strings in the template, a request-body reader failing half-way, network faults that hit the first evaluation only.",
+    "C18": " Also: one caller-owned *http.Request sent several times in a row, one http.Client handed to two SimpleHTTP objects.",
+    "C20": " Pure part also: equality patterns holding a pointer, the empty string against a regex that accepts it, functions returning nothing inside Compose/Pipe.",
 }
 
 PENDING_REASON = "check not built yet in this session (work in progress; see DESIGN.md §8a build order)"
@@ -91,7 +107,7 @@ def main():
             "evidence_file": "/verif/evidence/%s.json" % pid,
             "replay_cmd_template": "bin/simcheck replay {path}",
             "engine": "simcheck",
-            "level_claimed": {"category": c.get("category", "exploration"), "text": c["text"], "design_ref": c["ref"]},
+            "level_claimed": {"category": c.get("category", "exploration"), "text": c["text"] + EXTRA.get(pid, ""), "design_ref": c["ref"]},
             "level_note": c["note"],
             "technique": c.get("technique", TECH),
         })
